@@ -227,6 +227,10 @@ m("neutral-exact-fraction-time", "chartparse/tick.py",
 m("neutral-sorted-events", "chartparse/track.py",
   "        events: list[BPMNeedingEventT] = []\n        for data in datas:",
   "        events: list[BPMNeedingEventT] = []\n        for data in sorted(datas, key=lambda d: d.tick):", [], ["C11", "C09", "C05", "C14", "C13", "C18"])
+m("neutral-dispatch-under-a-lock", "chartparse/track.py",
+  "    m = ParsedDataMap()\n    for line in lines:\n        for t in types:\n            try:\n                data = t.from_chart_line(line)\n            except RegexNotMatchError:\n                continue\n            m[t].append(data)\n            break\n        else:\n            logger.warning(_unparsable_line_msg_tmpl.format(line, [t.__qualname__ for t in types]))\n    return m\n",
+  "    m = ParsedDataMap()\n    import threading\n    lock = globals().setdefault(\"_dispatch_lock\", threading.Lock())\n    for line in lines:\n        with lock:\n            for t in types:\n                try:\n                    data = t.from_chart_line(line)\n                except RegexNotMatchError:\n                    continue\n                m[t].append(data)\n                break\n            else:\n                logger.warning(_unparsable_line_msg_tmpl.format(line, [t.__qualname__ for t in types]))\n    return m\n",
+  [], ["C17", "C14"])
 m("neutral-getitem-copy", "chartparse/chart.py",
   "        return self.instrument_tracks[instrument]\n", "        return dict(self.instrument_tracks[instrument])\n", [], ["C19", "C13"])
 
